@@ -96,6 +96,8 @@ impl Engine for SyncCellEngine {
             Case { lines: vec!["case cell 0 0".into(), "shape".into()] },
             Case { lines: vec!["case cell 0 0".into(), format!("search 2 {depth}")] },
             Case { lines: vec!["case cell 0 0".into(), "search 1 16".into()] },
+            // K complete writes during one read, for every K up to a bound: the counter must not be back to its value
+            Case { lines: vec!["case cell 0 0".into(), "wrap 100000".into()] },
         ];
         let (w, n) = if tier == Tier::Quick { (200_000, 3) } else { (3_000_000, 6) };
         for r in 1..=n {
@@ -151,6 +153,10 @@ impl Engine for SyncCellEngine {
                     out.tags.push("model-search-for-torn-read".into());
                     "none".into()
                 }
+                (["wrap", _], _) => {
+                    out.tags.push("model-search-for-counter-wrap".into());
+                    "none".into()
+                }
                 (["stress", wr, rd], _) => {
                     out.nontrivial = true;
                     out.tags.push(format!("stress.readers{rd}"));
@@ -178,7 +184,7 @@ impl Engine for SyncCellEngine {
     fn blame(&self, req: &str, _i: &str, _m: &str) -> Vec<&'static str> {
         // read results are fixed by the property; a torn-read history found by the model under the source's
         // orderings is a concrete failing history.
-        if req.starts_with("read") || req.starts_with("search") {
+        if req.starts_with("read") || req.starts_with("search") || req.starts_with("wrap") {
             vec!["C15"]
         } else {
             vec![]
